@@ -83,9 +83,11 @@ Progs == <<
         goes through the same writer, and its failure is the render's *)
   <<T(<<104, 101, 108, 108, 111, 32>>), [t |-> "xargs", s |-> <<107>>], T(<<32, 119, 111, 114, 108, 100, 44, 32>>),
     [t |-> "xset", name |-> <<113>>, e |-> Lit(IntV(1))], T(<<97, 98>>),
-    [t |-> "xblock", times |-> 2, body |-> <<Ob(Var(X)), T(<<45>>)>>], [t |-> "xargs", s |-> <<>>], T(<<33>>)>>
+    [t |-> "xblock", times |-> 2, body |-> <<Ob(Var(X)), T(<<45>>)>>], [t |-> "xargs", s |-> <<>>], T(<<33>>)>>,
+  (* 24 an object whose value is an array of arrays (one write per innermost element), alone and inside a loop over it *)
+  <<T(<<60>>), Ob(Var(<<116, 98>>)), T(<<62>>), [t |-> "for", tag |-> "for", var |-> X, coll |-> Var(<<116, 98>>), body |-> <<Ob(Var(X)), T(<<59>>)>>]>>
 >>
-Env2 == << <<X, Str(<<88>>)>>, <<<<108>>, Arr(<<IntV(1), Str(<<50>>), Nil, IntV(3)>>)>>, <<<<101>>, Arr(<<>>)>> >>
+Env2 == << <<<<116, 98>>, Arr(<<Arr(<<Str(<<97>>), Str(<<98>>)>>), Arr(<<Str(<<99>>), Arr(<<Str(<<100>>), Str(<<101>>)>>)>>)>>)>>, <<X, Str(<<88>>)>>, <<<<108>>, Arr(<<IntV(1), Str(<<50>>), Nil, IntV(3)>>)>>, <<<<101>>, Arr(<<>>)>> >>
 Cx == [Cx0 EXCEPT !.pol = [Intended EXCEPT !.flushErr = FlushPolicy], !.path = TopPath, !.cache = << <<INC, IncBody>> >>]
 
 Ref(i) == Render(Cx, Progs[i], EnvOf(Env2))
